@@ -6,18 +6,30 @@ usage: python -m harness.drivers.c07 <mode> <out> <seed> <n> [theories]
                                            `real` (nat, int, real, list, set, function); also writes <out>.typable.json (which
                                            (outer, side, inner) nestings have a well-typed instance) for the S-level model
   corpus <out.ndjson> <seed> <n> th1,th2   statements of library items (terms, sequents), stored proof items, types
+  args   <out.ndjson> <seed> <tlc log> <k> proof-step arguments: the vectors <<"ARG", json>> of spec/C07_Args.tla (one value per
+                                           signature of parser.parse_args), printed with printer.print_str_args under k of the 4
+                                           supported settings (unicode x highlight; rotating with the seed) and exported through
+                                           printer.export_proof_item, parsed back with parser.parse_args / parse_proof_rule
+  sessions <out.ndjson> <seed> <tlc log>[,<tlc log>] <nlong>
+                                           histories: the vectors <<"HIST", json>> of spec/C07_History.tla performed on real objects
+                                           (terms, sequents, argument lists, instantiations that share terms), every one on objects
+                                           with fresh names, all in ONE process; then <nlong> seeded long histories on shared objects
   tables <out.json>                        operator table of syntax/operator.py and the term grammar text of syntax/parser.py
-Every term is printed under each printer configuration (ascii/unicode x line width None/20/80) and parsed back in a context that
-declares its free variables.  No verdict is computed here.
+Settings = (unicode, highlight, line width).  A line width is supported by the code for single terms only (print_thm and
+print_str_args raise TypeError / build ill-shaped lists when print_term returns a list of lines); types ignore it.
+Every print is performed TWICE under the same settings: `out` / `out2` are the printed objects (with highlighting: the list of
+text / colour / link fragments), the text that is parsed back is the concatenation of the first.
+Every term is parsed back in a context that declares its free variables.  No verdict is computed here.
 """
 import copy
 import itertools
 import json
 import random
 import sys
+from typing import List, Tuple
 
 from kernel import theory
-from kernel.type import Type, TVar, TFun, BoolType, NatType, IntType, RealType, TConst
+from kernel.type import Type, TVar, TFun, BoolType, NatType, IntType, RealType, TConst, TyInst
 from kernel.term import Term, Var, Const, Comb, Abs, Bound, Inst, Lambda, Forall, Exists, Nat, Int, Real, Eq, Not
 from kernel.thm import Thm
 from kernel.proof import ProofItem
@@ -25,9 +37,13 @@ from logic import basic, context
 from syntax import operator, parser, printer
 from syntax.settings import global_setting
 
-from harness.codec import enc, encT, encS, enc_named
+from harness.codec import enc, encT, encS, enc_named, dec, decT
 
-CONFIGS = [(False, None), (True, None), (True, 20), (False, 80)]
+# (unicode, highlight, line width)
+CONFIGS = [(False, False, None), (True, False, None), (True, False, 20), (False, False, 80)]
+HL_CONFIGS = [(u, True, w) for u in (False, True) for w in (None, 20, 80)]
+ALL_CONFIGS = [(u, h, w) for u in (False, True) for h in (False, True) for w in (None, 20, 80)]
+FLAT_CONFIGS = [(u, h, None) for u in (False, True) for h in (False, True)]       # sequents, types, proof-step arguments
 
 
 def vars_of(t):
@@ -35,7 +51,53 @@ def vars_of(t):
 
 
 def text_of(x):
-    return "\n".join(x) if isinstance(x, list) else x
+    """the text of a printed object: plain string, list of lines, list of fragments, list of lines of fragments"""
+    if isinstance(x, str):
+        return x
+    if isinstance(x, dict):
+        return str(x.get("text", ""))
+    if isinstance(x, (list, tuple)):
+        if all(isinstance(y, dict) for y in x):
+            return "".join(str(y.get("text", "")) for y in x)
+        return "\n".join(text_of(y) for y in x)
+    return str(x)
+
+
+def out_of(x):
+    """projection of a printed object to a flat list of strings (fragment = colour|text[|link name|link kind])"""
+    if isinstance(x, str):
+        return ["s|" + x]
+    if isinstance(x, dict):
+        r = "%s|%s" % (x.get("color"), x.get("text"))
+        if "link_name" in x or "link_ty" in x:
+            r += "|%s|%s" % (x.get("link_name"), x.get("link_ty"))
+        return [r]
+    if isinstance(x, (list, tuple)):
+        res = []
+        for y in x:
+            if isinstance(y, dict):
+                res.extend(out_of(y))
+            else:
+                res.append("<line>")
+                res.extend(out_of(y))
+        return res
+    return ["?|" + repr(x)[:80]]
+
+
+def cfg_json(cfg):
+    return [bool(cfg[0]), bool(cfg[1]), cfg[2] or 0]
+
+
+def print_twice(fn, cfg):
+    """fn() under the settings, twice: (first printed object, projection of the first, projection of the second)"""
+    uni, hl, width = cfg
+    with global_setting(unicode=uni, highlight=hl, line_length=width):
+        a = fn()
+        o1 = out_of(a)
+        txt = text_of(a)
+    with global_setting(unicode=uni, highlight=hl, line_length=width):
+        o2 = out_of(fn())
+    return txt, o1, o2
 
 
 class Out:
@@ -53,11 +115,10 @@ def roundtrip_term(out, t, label, extra_vars=None, configs=CONFIGS):
     vs = vars_of(t)
     if extra_vars:
         vs.update(extra_vars)
-    for uni, width in configs:
-        ev = {"kind": "term", "label": label, "cfg": [uni, width or 0], "t": enc(t)}
+    for cfg in configs:
+        ev = {"kind": "term", "label": label, "cfg": cfg_json(cfg), "t": enc(t)}
         try:
-            with global_setting(unicode=uni, line_length=width, highlight=False):
-                txt = text_of(printer.print_term(t))
+            txt, ev["out"], ev["out2"] = print_twice(lambda: printer.print_term(t), cfg)
             ev["text"] = txt
             context.set_context(None, vars=vs)
             r = parser.parse_term(txt)
@@ -66,7 +127,7 @@ def roundtrip_term(out, t, label, extra_vars=None, configs=CONFIGS):
             ev["outcome"], ev["r"] = "exc:" + type(e).__name__, ["none"]
             ev["err"] = str(e)[:160]
             ev.setdefault("text", "")
-        ev["key"] = "term:%s:%s" % (label, ev["text"][:120])
+        ev["key"] = "term:%s:%s%s" % (label, ev["text"][:120], ":hl" if cfg[1] else "")
         out.emit(ev)
 
 
@@ -195,7 +256,7 @@ def build_universe(rnd):
     return res
 
 
-def nest(out_path, seed, n):
+def nest(out_path, seed, n, hl_k=2):
     rnd = random.Random(seed)
     basic.load_theory("real")
     out = Out(out_path)
@@ -209,11 +270,17 @@ def nest(out_path, seed, n):
         (first if l not in seen else rest).append((l, t))
         seen.add(l)
     rnd.shuffle(rest)
-    for l, t in first + rest[:n]:
-        roundtrip_term(out, t, "nest:%s/%s/%s" % l, configs=CONFIGS[:2] if (l, t) in rest else CONFIGS)
+
+    def hl_pick(i, k):
+        """k of the 6 highlighted settings, rotating with the index and the seed (every setting is used across the universe)"""
+        return [HL_CONFIGS[(i + seed + j * (6 // max(1, min(k, 6)))) % 6] for j in range(min(k, 6))]
+    for i, (l, t) in enumerate(first):
+        roundtrip_term(out, t, "nest:%s/%s/%s" % l, configs=CONFIGS + hl_pick(i, hl_k))
+    for i, (l, t) in enumerate(rest[:n]):
+        roundtrip_term(out, t, "nest:%s/%s/%s" % l, configs=CONFIGS[:2] + hl_pick(i, 1))
     # depth 3: a nesting inside a nesting (seeded)
     pool = [t for _, t in univ]
-    for _ in range(n // 4):
+    for i in range(n // 4):
         a = rnd.choice(pool)
         try:
             T = a.checked_get_type()
@@ -224,11 +291,10 @@ def nest(out_path, seed, n):
             continue
         l, t = rnd.choice(cands)
         v = rnd.choice([v for v in t.get_vars() if v.T == T])
-        t3 = t.subst(Inst()) if False else t.abstract_over(v)
-        t3 = Abs("z", T, t3).subst_bound(a) if True else t
-        roundtrip_term(out, t3, "nest3:%s/%s/%s" % l, configs=CONFIGS[:2])
+        t3 = Abs("z", T, t.abstract_over(v)).subst_bound(a)
+        roundtrip_term(out, t3, "nest3:%s/%s/%s" % l, configs=CONFIGS[:2] + hl_pick(i, 1))
     for lbl, t in extras():
-        roundtrip_term(out, t, "extra:" + lbl)
+        roundtrip_term(out, t, "extra:" + lbl, configs=ALL_CONFIGS)
     history(out, pool, rnd)
     out.f.close()
     print("nest events", out.tid, "triples", len(typable))
@@ -543,7 +609,7 @@ def tables(out_path):
 if __name__ == "__main__":
     mode = sys.argv[1]
     if mode == "nest":
-        nest(sys.argv[2], int(sys.argv[3]), int(sys.argv[4]))
+        nest(sys.argv[2], int(sys.argv[3]), int(sys.argv[4]), int(sys.argv[5]) if len(sys.argv) > 5 else 2)
     elif mode == "corpus":
         corpus(sys.argv[2], int(sys.argv[3]), int(sys.argv[4]), sys.argv[5].split(","))
     elif mode == "tables":
